@@ -26,10 +26,11 @@ def mesh_for(dim, elem):
 
     if (dim, elem) not in _MESH:
         with quiet():
+            org = not elem.startswith(("TRI", "TETRA"))  # recombined unstructured meshes may mix element types
             if dim == 2:
-                _MESH[(dim, elem)] = Mesher().Mesh_2D(Domain(Point(0, 0), Point(2, 1), 0.9), [], ElemType(elem))
+                _MESH[(dim, elem)] = Mesher().Mesh_2D(Domain(Point(0, 0), Point(2, 1), 0.9), [], ElemType(elem), isOrganised=org)
             else:
-                _MESH[(dim, elem)] = Mesher().Mesh_Extrude(Domain(Point(0, 0), Point(2, 1), 1.1), [], [0, 0, 1], [1], ElemType(elem))
+                _MESH[(dim, elem)] = Mesher().Mesh_Extrude(Domain(Point(0, 0), Point(2, 1), 1.1), [], [0, 0, 1], [1], ElemType(elem), isOrganised=org)
     return _MESH[(dim, elem)]
 
 
